@@ -444,19 +444,23 @@ func (w *world) newProcessor() {
 	// would not be a durable wait, and a stalled handler must be releasable at the end of the run
 	w.hctx, w.hcancel = context.WithCancel(w.supCtx)
 	if w.loop {
-		w.runCtx, w.cancel = context.WithCancel(w.supCtx)
-		w.runDone = make(chan struct{})
-		p, ctx, done := w.p, w.runCtx, w.runDone
-		go func() {
-			defer close(done)
-			defer func() {
-				if r := recover(); r != nil {
-					w.recordPanic(r, debug.Stack())
-				}
-			}()
-			_ = p.Run(ctx)
-		}()
+		w.startRun()
 	}
+}
+
+func (w *world) startRun() {
+	w.runCtx, w.cancel = context.WithCancel(w.supCtx)
+	w.runDone = make(chan struct{})
+	p, ctx, done := w.p, w.runCtx, w.runDone
+	go func() {
+		defer close(done)
+		defer func() {
+			if r := recover(); r != nil {
+				w.recordPanic(r, debug.Stack())
+			}
+		}()
+		_ = p.Run(ctx)
+	}()
 }
 
 func (w *world) stopProcessor() {
@@ -836,6 +840,21 @@ func (w *world) runStep(i int, st simkit.Step) {
 			setStoreInner(w.db, bdb)
 			w.dbDown = false
 		}
+	case "rerun":
+		// the supervisor cancels the processor's runnable and schedules it again: Run is entered a
+		// second time on the same Processor (loop mode; the handlers have no such notion)
+		if !w.loop || w.stalled || w.dead || w.cancel == nil {
+			break
+		}
+		w.cancel()
+		<-w.runDone
+		if w.p.cleanup != nil {
+			w.p.cleanup.Stop()
+		}
+		synctest.Wait()
+		w.startRun()
+		synctest.Wait()
+		w.stats.Fault("run-loop-re-entered")
 	case "restart":
 		if w.dbDown {
 			break
